@@ -200,3 +200,11 @@ package keeper
 //@   invariant true
 //@ loop #6
 //@   invariant true
+
+// ---------------------------------------------------------------------------------------------
+// C01 (the published staking total of an asset changes only by deposits and withdrawals): updating an asset's meta
+// information rewrites the asset's record with the new text and leaves its published total as it was.
+//@ func (Keeper).UpdateStakingAssetMetaInfo
+//@   modifies get(ctx, "assets", assetKey(assetID)), heap["x/assets/types.StakingAssetInfo"]
+//@   ensures[C01.usami.total] err == nil ==> assetRaw(ctx, assetID) != nil && assetInfo(ctx, assetID).StakingTotalAmount == old(assetInfo(ctx, assetID).StakingTotalAmount)
+//@   ensures[C01.usami.atomic,C09.usami.atomic] err != nil ==> state(ctx) == old(state(ctx))
